@@ -145,6 +145,54 @@ func ruleActiveCaseAgree(w *core.World, r *core.Report) {
 	}
 }
 
+// ruleNoSplitOfJoin (shared by C01 and C11): a joined instance path is a one-way form. Key values are instance data
+// and may contain the separator (interface ethernet-1/1, an IPv6 prefix), so strings.Split / SplitN / Fields of a
+// text that comes (by value flow through variables, slices, results and fields) from a strings.Join in the
+// repository does not give the elements back. The rule reports every such split in pkg/.
+func ruleNoSplitOfJoin(w *core.World, r *core.Report) {
+	r.Rule("NO-SPLIT-OF-JOIN", 1, "(shared by C01 and C11) no strings.Split / SplitN / SplitAfter / Fields in pkg/ takes a text that comes, by value flow through variables, slices, results and fields of all repository packages, from a strings.Join made in the same function or received as the result of a call (arguments handed in by callers are not followed): a joined instance path cannot be taken apart again because key values may contain the separator (ethernet-1/1, 2001:db8::/64); a path rebuilt that way addresses another node, e.g. a delete sent to the device or the cache for a node nobody asked to delete.")
+	fl := w.NewFlow()
+	fl.NoParams = true
+	for _, f := range w.RepoFns {
+		for _, c := range core.OwnCallsTo(f, "strings.Join") {
+			v := c.Value()
+			args := core.CallArgs(c)
+			if v == nil || len(args) == 0 {
+				continue
+			}
+			// split - edit the parts - join again gives the text itself back, not a joined path
+			if core.DataSlice(f, []ssa.Value{args[0]}).HasCallTo("strings.Split", "strings.SplitN", "strings.SplitAfter", "strings.Fields") {
+				continue
+			}
+			fl.AddSource(v)
+		}
+	}
+	fl.Run()
+	n, bad := 0, 0
+	for _, f := range w.RepoFns {
+		if f.Pkg == nil || !strings.HasPrefix(core.PkgPath(f), core.Module+"/pkg/") || strings.Contains(core.PkgPath(f), "/mocks/") {
+			continue
+		}
+		ord := 0
+		for _, c := range core.OwnCallsTo(f, "strings.Split", "strings.SplitN", "strings.SplitAfter", "strings.Fields") {
+			args := core.CallArgs(c)
+			if len(args) == 0 {
+				continue
+			}
+			n++
+			ord++
+			if fl.Reaches(args[0]) {
+				bad++
+				r.Viol("NO-SPLIT-OF-JOIN", core.Site(f, "split #%d does not take a joined path apart", ord), w.InstrPos(c), "the text that is split comes from a strings.Join: elements (key values) that contain the separator are cut in two and the rebuilt path addresses a different node")
+			}
+		}
+	}
+	r.Extra["splits_examined"] = n
+	if bad == 0 {
+		r.OK("NO-SPLIT-OF-JOIN", "no split of a joined text in pkg/", "", fmt.Sprintf("%d split calls examined", n))
+	}
+}
+
 func ruleNoPrefixOnJoin(w *core.World, r *core.Report) {
 	r.Rule("NO-PREFIX-ON-JOIN", 1, "(shared by C08, C11, C14) a prefix test against a joined instance path must test whole elements: the prefix operand ends with the separator ('<joined path> + sep'). A bare HasPrefix(key, join(path)) also matches siblings whose name merely starts with the last element (eth1 vs eth10, case member 'log' vs leaf 'log-level'). Joined paths are followed by value flow through variables, slices and maps in all repository packages.")
 	fl := w.NewFlow()
